@@ -7,6 +7,7 @@ import (
 	"fmt"
 	"os"
 	"runtime/debug"
+	"strings"
 	"testing"
 
 	"github.com/VKCOM/tl/pkg/basictl"
@@ -21,7 +22,13 @@ func Main(t *testing.T, reg *Registry) {
 		return
 	}
 	debug.SetMaxStack(256 << 20) // a runaway recursion dies quickly (and is attributed by the driver's journal re-run)
-	ctx, _ := json.Marshal(map[string]string{"schema_set": reg.SetName, "generator_args": os.Getenv("VERIF_GEN_ARGS")})
+	ctxMap := map[string]string{"schema_set": reg.SetName, "generator_args": os.Getenv("VERIF_GEN_ARGS")}
+	if strings.HasPrefix(reg.SetName, "rnd") { // a random schema set: the replay file must carry the schema itself
+		if b, err := os.ReadFile(os.Getenv("VERIF_GEN_FILES")); err == nil {
+			ctxMap["schema_text"] = string(b)
+		}
+	}
+	ctx, _ := json.Marshal(ctxMap)
 	pbt.Context = ctx
 	prop := os.Getenv("VERIF_PROP")
 	f, ok := props[prop]
